@@ -278,7 +278,8 @@ def case_hist(c):
             elif is_real:
                 tag = ops[op][0]
                 x = arrays[tag]
-                const_in = part.order[tag][2]
+                plan = part.advance(tag, custom)
+                const_in = part.order[tag][2] and plan.data_std == 0      # the stated zero-variance case
                 before = _cache_tuple(obj.stats_cache)
                 try:
                     with np.errstate(**(ERR if (strict or const_in) else {})):
@@ -296,7 +297,6 @@ def case_hist(c):
                     return None
                 after = _cache_tuple(obj.stats_cache)
                 counters['calls'] += 1
-                plan = part.advance(tag, custom)
                 if not isinstance(q, np.ndarray) or q.dtype.kind not in 'iu':
                     V(site, 'not_integer', 'output is %s dtype %s' % (type(q).__name__, getattr(q, 'dtype', None)), h)
                     done[h] = FAIL
@@ -312,7 +312,9 @@ def case_hist(c):
             else:
                 ta, tb = ops[op]
                 z = zs[op]
-                const_in = part_r.order[ta][2] and part_i.order[tb][2]
+                plan_r, plan_i = part_r.advance(ta, cr), part_i.advance(tb, ci)
+                const_in = (part_r.order[ta][2] and plan_r.data_std == 0 and
+                            part_i.order[tb][2] and plan_i.data_std == 0)
                 b_r, b_i = _cache_tuple(obj.stats_cache_r), _cache_tuple(obj.stats_cache_i)
                 try:
                     with np.errstate(**(ERR if (strict or const_in) else {})):
@@ -330,7 +332,6 @@ def case_hist(c):
                     return None
                 a_r, a_i = _cache_tuple(obj.stats_cache_r), _cache_tuple(obj.stats_cache_i)
                 counters['calls'] += 1
-                plan_r, plan_i = part_r.advance(ta, cr), part_i.advance(tb, ci)
                 ph[0].append(ta); ph[1].append(tb)
                 if not isinstance(q, np.ndarray):
                     V(site, 'not_integer', 'output is %s' % type(q).__name__, h)
@@ -531,7 +532,7 @@ def case_func(c):
                             dm, ds = float(x[0]) + 1.5, 0.0
                         kw.update(data_mean=dm, data_std=ds)
                         me, se, s_ = False, False, None
-                    q = call(site, lambda: Q.quantize_real(x, **kw), const_in, sub)
+                    q = call(site, lambda: Q.quantize_real(x, **kw), const_in and ds == 0, sub)
                     res['n'] += 1
                     if q is None:
                         continue
@@ -548,7 +549,7 @@ def case_func(c):
                 ta, tb = c['arr']
                 xr, xi = arr(seed, ta), arr(seed, tb)
                 z = xr + 1j * xi
-                const_in = bool(np.all(z == z[0]))
+                const_in = bool(np.all(z == z[0]))      # then both estimated deviations are zero
                 q = call(site, lambda: Q.quantize_complex(z, target_mean=tm, target_std=tstd, num_bits=bits,
                                                           stats_calc_num_samples=N), const_in, sub)
                 res['n'] += 1
@@ -635,8 +636,9 @@ def run(ctx):
                      'eps = %d u x first-order condition number (u = 2^-53)' % rq.K_COND,
                      'zero cached/supplied deviation with a NON-constant input: formula undefined, values not compared '
                      '(counted in undecided_calls); range, dtype, monotonicity still demanded',
-                     'floating-point exceptions (overflow/invalid/divide) are violations only for zero-variance input, '
-                     'as stated; elsewhere they are counted (fp_flag_nonconstant) and the outputs decide',
+                     'floating-point exceptions (overflow/invalid/divide) are violations only for a zero-variance input '
+                     'quantised with a zero deviation, as stated; elsewhere they are counted (fp_flag_nonconstant) and '
+                     'the outputs decide',
                      'non-empty one-dimensional inputs; custom deviations positive'],
         coverage_extra={'bounds': {'boxes': bounds, 'bits': BITS, 'target_mean': TMEAN, 'target_fwhm': FWHM,
                                    'stats_calc_num_samples': NSAMP, 'stats_calc_period': PERIODS,
